@@ -536,7 +536,22 @@ def check_c02(tier, replay):
         inst = [{"consts": base_consts(Enabled=C02_ENABLED), "representatives": False, "max_len": 80},
                 {"consts": base_consts(Values=["v3", "v4", "v5"], MetaFolders=["f1"], Enabled=C02_ENABLED),
                  "max_len": 80}]
-    return account_check("C02", tier, replay, inst, rule, ACCOUNT_ASSUME)
+    rc = account_check("C02", tier, replay, inst, rule, ACCOUNT_ASSUME)
+    if rc != 0 or replay:
+        return rc
+    # merges, auto-merges and forced overwrites received from other devices
+    ev_path = os.path.join(vlib.EVID, "C02.json")
+    ev_account = json.load(open(ev_path))
+    rc2 = sync_check("C02", tier, None)
+    ev_sync = json.load(open(ev_path))
+    ev_account["coverage"]["sync_world"] = {k: ev_sync["coverage"].get(k) for k in
+                                            ("traces_validated_against_impl", "impl_steps_compared",
+                                             "simulated_behaviours", "states", "transitions")}
+    ev_account["coverage"]["traces_validated_against_impl"] += ev_sync["coverage"]["traces_validated_against_impl"]
+    ev_account["violations"] = ev_account.get("violations", 0) + ev_sync.get("violations", 0)
+    ev_account["wall_s"] = round(ev_account["wall_s"] + ev_sync["wall_s"], 2)
+    json.dump(ev_account, open(ev_path, "w"), indent=1, sort_keys=True)
+    return rc2
 
 
 C12_ENABLED = ["CreateSecret", "UpdateSecret", "DeleteSecret", "CreateFolder", "RenameFolder", "SetDescription",
@@ -566,7 +581,7 @@ def check_c12(tier, replay):
 # ---------------------------------------------------------------------------
 # Sync.tla  <->  LocalAccount devices + server Backend: C04 C05 (C09)
 
-SYNC_ACTIONS = ["AEdit", "AQuiesce", "AReqStatus", "AReqSync", "AMergeReply", "AReqScan", "AReqDiff",
+SYNC_ACTIONS = ["AEdit", "AQuiesce", "AHardReset", "AReqStatus", "AReqSync", "AMergeReply", "AReqScan", "AReqDiff",
                 "AReqPatch", "ARewindLocal"]
 SYNC_INVS = ["TypeOK", "QuiescentConverged", "NoLoss", "OnlyCommitted", "NoDup", "NoAcceptedDropped"]
 SYNC_DEVS = {"ScanLeafOnly": "QuiescentConverged", "LocateByHash": "QuiescentConverged",
@@ -621,7 +636,7 @@ def macro_steps(beh, k):
     steps, i = [], 0
     while i < len(beh):
         e = beh[i]
-        if e["act"] in ("Edit", "Quiesce"):
+        if e["act"] in ("Edit", "Quiesce", "HardReset"):
             steps.append({"act": e["act"], "args": e["args"],
                           "to": {"log": e["to"]["log"], "srv": e["to"]["srv"]}})
             i += 1
@@ -683,7 +698,7 @@ def sync_check(prop, tier, replay):
             log("REPLAY-DIVERGENCE " + x["summary"][:1500])
         return 1 if summ["violations"] else 0
     base = {"Devices": '{"a", "b"}', "MaxEdits": "2", "Times": "{1, 2}", "Names": '{"n1"}',
-            "EditKinds": '{"new", "upd", "del"}', "ScanLimit": "2", "K": "2", "Mode": '"sequential"',
+            "EditKinds": '{"new", "upd", "del", "hard"}', "ScanLimit": "2", "K": "2", "Mode": '"sequential"',
             "Deviations": "{}", "EmitEdges": "FALSE"}
     k = 2
     nsim = 120 if tier == "quick" else 1500
